@@ -214,7 +214,7 @@ class Interp:
             return self.call_closure(fn, args, kwargs)
         if isinstance(fn, LambdaFn):
             frame = Frame(None, fn.module, parent=fn.frame)
-            self.bind_args(frame, fn.node.args, [], {}, args, kwargs, "<lambda>")
+            self.bind_args(frame, fn.node.args, getattr(fn, "defaults", []), getattr(fn, "kwdefaults", {}), args, kwargs, "<lambda>")
             return self.eval(fn.node.body, frame)
         if isinstance(fn, PyClass):
             return self.rt.instantiate(self, fn, list(args), dict(kwargs))
@@ -273,8 +273,13 @@ class Interp:
             result = None
         except ReturnSignal as r:
             result = r.value
+        except PyExc as pe:
+            if info.is_generator and frame.yielded and getattr(frame, "yield_callback", None) is None:
+                # the consumer sees the items yielded so far BEFORE the exception (it is raised when they are used up)
+                return GenResult(frame.yielded, pending_exc=pe.obj, from_function=True)
+            raise
         if info.is_generator:
-            return GenResult(frame.yielded)
+            return GenResult(frame.yielded, from_function=True)
         return result
 
     # ------------------------------------------------------------------ statements
@@ -346,7 +351,14 @@ class Interp:
     def x_AugAssign(self, st, frame):
         load = ast.copy_location(_as_load(st.target), st.target)
         cur = self.eval(load, frame)
-        v = self.binop(st.op, cur, self.eval(st.value, frame), st)
+        rhs = self.eval(st.value, frame)
+        if isinstance(cur, list) and isinstance(st.op, ast.Add):
+            cur.extend(self.iterate(rhs))        # list += iterable extends the SAME list object (aliases see it)
+            self.assign(st.target, cur, frame)
+            return
+        if isinstance(cur, (PDict, PSet, bytearray)) or (isinstance(cur, list) and isinstance(st.op, ast.Mult)):
+            self.unsupported("augmented assignment on a mutable container", st)
+        v = self.binop(st.op, cur, rhs, st)
         self.assign(st.target, v, frame)
 
     def x_Delete(self, st, frame):
@@ -368,8 +380,18 @@ class Interp:
             frame.locals[t.id] = v
         elif isinstance(t, (ast.Tuple, ast.List)):
             items = self.iterate(v)
-            if any(isinstance(e, ast.Starred) for e in t.elts):
-                self.unsupported("starred assignment", t)
+            stars = [i for i, e in enumerate(t.elts) if isinstance(e, ast.Starred)]
+            if stars:
+                k = stars[0]
+                after = len(t.elts) - k - 1
+                if len(stars) > 1 or len(items) < len(t.elts) - 1:
+                    self.raise_py("ValueError", "unpack arity")
+                for e, x in zip(t.elts[:k], items[:k]):
+                    self.assign(e, x, frame)
+                self.assign(t.elts[k].value, list(items[k:len(items) - after]), frame)
+                for e, x in zip(t.elts[k + 1:], items[len(items) - after:]):
+                    self.assign(e, x, frame)
+                return
             if len(items) != len(t.elts):
                 self.raise_py("ValueError", "unpack arity")
             for e, x in zip(t.elts, items):
@@ -389,19 +411,36 @@ class Interp:
 
     def x_For(self, st, frame):
         it = self.eval(st.iter, frame)
-        items = self.iterate(it)
+        gen = it if isinstance(it, GenResult) and it.from_function else None
+        items = self.iterate(it, in_loop=True)
         broke = False
-        for x in items:
-            self.assign(st.target, x, frame)
-            try:
-                self.exec_block(st.body, frame)
-            except BreakSignal:
-                broke = True
-                break
-            except ContinueSignal:
-                continue
+        n = 0
+        try:
+            for x in items:
+                n += 1
+                self.assign(st.target, x, frame)
+                try:
+                    self.exec_block(st.body, frame)
+                except BreakSignal:
+                    broke = True
+                    break
+                except ContinueSignal:
+                    continue
+        except (PyExc, ReturnSignal, BreakSignal, ContinueSignal):
+            if gen is not None and (n < len(items) or gen.pending_exc is not None):
+                self._abandoned(gen)
+            raise
+        if broke and gen is not None and (n < len(items) or gen.pending_exc is not None):
+            self._abandoned(gen)
+        if gen is not None and gen.pending_exc is not None:
+            exc, gen.pending_exc = gen.pending_exc, None
+            raise PyExc(exc)
         if not broke:
             self.exec_block(st.orelse, frame)
+
+    def _abandoned(self, gen):
+        raise Undecided("a generator function's result is abandoned before it is used up: the model has already executed "
+                        "the rest of its body (generators are collected eagerly)")
 
     x_AsyncFor = x_For
 
@@ -498,6 +537,8 @@ class Interp:
                             self.exec_block(h.body, frame)
                         finally:
                             frame.handling = prev
+                            if h.name:
+                                frame.locals.pop(h.name, None)      # `except E as name`: the name is deleted afterwards
                         break
                 if not handled:
                     raise
@@ -533,7 +574,8 @@ class Interp:
         try:
             self.exec_block(st.body, frame)
         except PyExc as pe:
-            self.rt.context_exit(self, mgr, pe.obj)
+            if self.rt.context_exit(self, mgr, pe.obj) is True:
+                return            # __exit__ returned a true value: the exception is swallowed
             raise
         except (ReturnSignal, BreakSignal, ContinueSignal):
             self.rt.context_exit(self, mgr, None)
@@ -621,7 +663,11 @@ class Interp:
         return None
 
     def e_Lambda(self, e, frame):
-        return LambdaFn(e, frame, frame.module)
+        fn = LambdaFn(e, frame, frame.module)
+        # default values are evaluated when the lambda is created
+        fn.defaults = [self.eval(d, frame) for d in e.args.defaults]
+        fn.kwdefaults = {a.arg: self.eval(d, frame) for a, d in zip(e.args.kwonlyargs, e.args.kw_defaults) if d is not None}
+        return fn
 
     def e_IfExp(self, e, frame):
         if self.truth(self.eval(e.test, frame)):
@@ -745,6 +791,9 @@ class Interp:
         if isinstance(e.func, ast.Name) and e.func.id == "super" and not e.args:
             return self.rt.make_super(self, frame)
         fn = self.eval(e.func, frame)
+        if (isinstance(fn, Builtin) and fn.name in ("any", "all") and len(e.args) == 1 and not e.keywords
+                and isinstance(e.args[0], ast.GeneratorExp)):
+            return self._lazy_any_all(fn.name, e.args[0], frame)
         args = []
         for a in e.args:
             if isinstance(a, ast.Starred):
@@ -775,6 +824,28 @@ class Interp:
             fn = fn.func
         return (isinstance(fn, Closure) and isinstance(fn.info.node, ast.AsyncFunctionDef) and not fn.info.is_generator
                 and not fn.attrs.get("contextmanager"))
+
+    class _Stop(Exception):
+        pass
+
+    def _lazy_any_all(self, which, gen, frame):
+        """any(<genexp>) / all(<genexp>) stop at the first deciding element: the remaining element expressions are NOT
+        evaluated (their side effects and exceptions do not happen)"""
+        box = {"r": which == "all"}
+
+        def emit(fr):
+            t = self.truth(self.eval(gen.elt, fr))
+            if which == "any" and t:
+                box["r"] = True
+                raise Interp._Stop()
+            if which == "all" and not t:
+                box["r"] = False
+                raise Interp._Stop()
+        try:
+            self._comp(gen.generators, frame, emit)
+        except Interp._Stop:
+            pass
+        return box["r"]
 
     def _comp(self, generators, frame, emit):
         def rec(i, fr):
@@ -817,11 +888,15 @@ class Interp:
         return d
 
     # ------------------------------------------------------------------ operators
-    def iterate(self, v):
+    def iterate(self, v, in_loop=False):
         """Materialise an iterable of path-concrete shape into a Python list."""
         if isinstance(v, (list, tuple)):
             return list(v)
         if isinstance(v, GenResult):
+            if v.pending_exc is not None and not in_loop:
+                # list(gen), sorted(gen), ...: the consumer has no effects of its own, the exception is what is left
+                exc, v.pending_exc = v.pending_exc, None
+                raise PyExc(exc)
             return list(v.items[v.pos:])
         if isinstance(v, PDict):
             return [k for k, _ in v.pairs]
